@@ -107,7 +107,7 @@ def bounds(tier, seed):
 def input_id(case):
     return '/'.join(str(case.get(k, '-')) for k in ('n', 'obj', 'cons', 'split', 'bounds', 'move', 'start', 'version', 'asy',
                                                     'table', 'sigkind', 'opts')) + \
-        ''.join(f'/{k}={case[k]}' for k in ('tolx', 'callback') if case.get(k))
+        ''.join(f'/{k}={case[k]}' for k in ('tolx', 'callback', 'tolf') if case.get(k))
 
 
 _UNBAL = {}
@@ -220,6 +220,15 @@ def generate(tier, seed):
                     for bk in (('scalar',) if tier == 'quick' else ('scalar', 'pervar')):
                         yield {'n': n, 'split': 'one_array', 'obj': obj, 'cons': 'rec3', 'bounds': bk, 'move': 'scalar',
                                'start': start, 'version': ver, 'asy': 'default', 'table': table}
+    # a stopping tolerance on the objective change together with an objective that is exactly zero at the (infeasible)
+    # start: the run must not stop there
+    yield {'__level__': 'objective-change tolerance with a vanishing objective'}
+    for n in (1, 2, 3):
+        for ver in R.VERSIONS:
+            for start in ('lower', 'mixed'):
+                for bk in ('scalar', 'pervar'):
+                    yield {'n': n, 'split': 'one_array', 'obj': 'lin0', 'cons': 'rec3', 'bounds': bk, 'move': 'scalar',
+                           'start': start, 'version': ver, 'asy': 'default', 'table': table, 'tolf': 1e-6}
     yield {'__level__': 'min-max with scaled constraints (all value tables)'}
     for tb in range(R.NTABLES):
         for n in ((2, 3, 5) if tier == 'quick' else (2, 3, 5, 6, 8)):
@@ -384,6 +393,8 @@ def execute(case):
     try:
         with contextlib.redirect_stdout(buf):
             tolkw = {} if case.get('tolx') == 'default' else {'tolx': TOLX}
+            if case.get('tolf'):
+                tolkw['tolf'] = float(case['tolf'])
             user_args = {'move': spec(move_spec), 'xmin': spec(xmin_spec), 'xmax': spec(xmax_spec)}
             pym.minimize_mma(net, sigs, outs, verbosity=0, maxit=int(case.get('maxit', MAXIT)), move=user_args['move'],
                              **tolkw,
@@ -434,6 +445,8 @@ def execute(case):
                  f'({WORK_LIMIT} residual evaluations) before it returned')
     nit = len(subs)
     pending = 1 if truncated[0] == 'work limit' else 0   # the call that was cut off has no record
+    if case.get('tolf') and len(cbs) == nit + pending + 1 and len(seen) == nit + pending + 1:
+        pending += 1          # stopped by the objective-change test, which comes before the sub-problem of that iteration
     chk(len(cbs) == nit + pending and len(seen) == nit + pending and len(cbs) >= 1, 'schedule', {},
         cbs=len(cbs), subs=nit, seen=len(seen))
     nit = min(len(cbs), len(subs), len(seen))
@@ -477,6 +490,15 @@ def execute(case):
             continue
         chk(bool(np.all(low < alfa) and np.all(alfa <= beta) and np.all(beta < upp)), 'asymptotes_enclose', base_sig,
             iteration=k, low=low, alfa=alfa, beta=beta, upp=upp)
+        if not case.get('callback') and np.all(low < xk) and np.all(xk < upp):
+            # the admissible interval of the sub-problem is the one of the method: the move limit, the bounds and the
+            # fraction albefa of the distance to each asymptote, whichever is tightest
+            a_ref = np.maximum.reduce([lo, xk - mv * dx, low + albefa * (xk - low)])
+            b_ref = np.minimum.reduce([hi, xk + mv * dx, upp - albefa * (upp - xk)])
+            tol_i = 1e-9 * np.maximum(np.abs(xk), dx) + 1e-12
+            chk(bool(np.all(np.abs(alfa - a_ref) <= tol_i) and np.all(np.abs(beta - b_ref) <= tol_i)),
+                'admissible_interval', base_sig, iteration=k, x=xk, low=low, upp=upp, alfa=alfa, beta=beta,
+                alfa_expected=a_ref, beta_expected=b_ref)
         chk(bool(np.all(P >= 0) and np.all(Q >= 0)), 'approx_convex', base_sig, iteration=k, P=P, Q=Q)
         gtrue, dgtrue = prob.values(xk), prob.grads(xk)
         if np.all(low < xk) and np.all(xk < upp):
